@@ -429,7 +429,7 @@ def num_stage(name, kinds, counts, **kw):
 def summary_models(tier):
     return [
         dict(module="Summary", name="MC_Summary",
-             cfg=dict(constants=dict(MaxN=q(tier, 3, 4), MaxR=q(tier, 2, 3), MaxP=q(tier, 4, 5), FixF5=True), invariants=["MomentAlgebraOK", "WestOK", "ShiftOK"])),
+             cfg=dict(constants=dict(MaxN=q(tier, 3, 4), MaxR=q(tier, 2, 2), MaxP=q(tier, 4, 4), FixF5=True), invariants=["MomentAlgebraOK", "WestOK", "ShiftOK"])),
     ]
 
 
